@@ -137,7 +137,8 @@ class Runner:
         if fault is not None:
             extra["VSHIM_FAULT"] = "inj:%s:%d:%s" % fault
         if alarm is not None:
-            extra["VSHIM_SIGNAL"] = "inj:%d:14" % alarm      # the 24-hour timer expires just before the k-th mutating call
+            # the 24-hour timer expires just before the k-th mutating call, or (k, "after") right after that call was performed
+            extra["VSHIM_SIGNAL"] = ("inj:%d:14:after" % alarm[0]) if isinstance(alarm, tuple) else ("inj:%d:14" % alarm)
         env = h.env(role="inj", uid=uid, **extra)
         trig = None
         if hold_trigger:
@@ -356,6 +357,10 @@ def run_input(r, sc, stats, full=True, pick=None):
     # the message became visible (added after seeded changes C02-D / C01-D)
     for k in ks[:-1]:
         plans.append(("alarm", k))
+    # ... and at the instant a call has been performed but the program has not yet seen its result - where the kernel delivers a signal that
+    # arrived during the call: whatever the program notes down "once the call has returned" is not yet noted (added after seeded change C01-K)
+    for k in ks[:-1]:
+        plans.append(("alarm_after", k))
     for cls, k, ev in sites:
         if cls in ("lseek", "stat", "flock", "opendir", "fork", "pipe"):
             continue
@@ -389,6 +394,8 @@ def run_input(r, sc, stats, full=True, pick=None):
             v, _, rc_a = one(("alarm", pl[1]), alarm=pl[1], expect=52)
             if not v and pl[1] % 3 == 0:
                 v, _, rc_a = one(("alarm", pl[1], "inherited_blocked_mask"), alarm=pl[1], expect=52, blocked=True)
+        elif pl[0] == "alarm_after":
+            v, _, rc_a = one(("alarm", pl[1], "after_the_call"), alarm=(pl[1], "after"), expect=52)
         else:
             _, cls, k, kind, ev = pl
             exp = expected_fault_exit(cls, kind, ev) if grc == 0 else None
